@@ -290,7 +290,7 @@ def io_case(case):
     snap = snapshot(wf)
     if not all(isinstance(e, list) for e in snap):
         return {"ok": True, "skip": True}
-    d = tempfile.mkdtemp(prefix="c12.", dir=os.environ.get("VERIF_SCRATCH", "/var/tmp"))
+    d = tempfile.mkdtemp(prefix="c12.", dir=os.environ.get("VERIF_SCRATCH", "/dev/shm" if os.path.isdir("/dev/shm") else "/var/tmp"))
     try:
         p = os.path.join(d, "wf.json")
         save_wavefunction(wf, p)
